@@ -29,6 +29,9 @@ STATIC_SAMPLES = ['"', '{a} # {b}', 1990]
 SPECIALS = ['"', "{", "}", "{}", '""', "{a} # {b}", '"a" # "b"', " {a} ", "{{a}}", '"{a}"', '{"a"}', '{a}b', 'a"', '"a', "{a", "a}", "", " ", "a b", '{a"b}', '"a{"}b"', "{\\}}", '"\\""',
             # an at-sign (with a word) separated from a brace group by whitespace other than blank / tab: not a block start
             "@\n{}", "x @y\r\n{z}", "@\x0c{}", "@w\u2028{}", "@\xa0{a}", "@\x0b{}", "e-mail: a@b\n{c}"]
+for _d in range(1, 9):  # nesting depth 1..8 next to sibling groups, inside braces and inside quotes
+    _n = "".join("{" + chr(98 + i) + " " for i in range(_d)) + "x" + "}" * _d
+    SPECIALS += ["{a %s}" % _n, "{%s {h}}" % _n, "{{h} %s}" % _n, "{a %s {h} %s z}" % (_n, _n), '"%s {h}"' % _n, "{%s}" % _n, _n, "%s {h}" % _n]
 INTS = [0, 7, 1990, -5, "0", "7", "1990", "007", "-5", "1e3", "12a", "١٢", "½", "Ⅷ", "四", "1½"]  # the last four: str.isnumeric() but not digits
 KEYS = ["year", "month", "pages", "title", "Year", "volume"]
 NUMERIC = {"year", "month", "volume", "number", "pages", "edition", "chapter", "issue"}
